@@ -128,6 +128,12 @@ func symQuiesce() int {
 	return 0
 }
 
+// symNative reports whether the harness runs natively (replay / differential validation) rather
+// than under the engine. symNativeRepeat(n) is n natively and 1 under the engine: a native replay
+// cannot force an interleaving, so a racy scenario is attempted n times.
+func symNative() bool            { return true }
+func symNativeRepeat(n int) int  { return n }
+
 // symYield is a scheduling point for the calling goroutine.
 func symYield() { verifSleep() }
 
